@@ -411,6 +411,7 @@ def model_check(ctx):
     if r2["violated"] or r2["error"] or r2["timeout"]:
         raise Inconclusive("liveness checking of Group.tla did not pass: " + r2["out"][-2000:])
     cov["liveness"] = {"formulas": ["L_CloseReturns"], "states": r2["distinct"]}
+    cov["inductive"] = inductive(ctx, d)
     # the literal reading "every function started in the previous generation" includes functions started after
     # the generation ended (documented deviation of Generation.Start): the model must show that it can be violated
     with open(os.path.join(d, "MC_strict.cfg"), "w") as f:
@@ -418,6 +419,44 @@ def model_check(ctx):
     r3 = ctx.tlc(ENGINE, "Group", "MC_strict.cfg", workers=8, timeout=600)
     cov["untracked_start_deviation_reachable_in_model"] = (r3["violated"] == "C15_OneLiveAll")
     return cov
+
+
+def inductive(ctx, d):
+    """Generation accounting for an UNBOUNDED number of functions: Apalache checks that GenInd!IndInv holds initially, is
+    preserved by every action (one step from an arbitrary state satisfying it) and implies the properties; the same three
+    queries on the model with the defect "a returning function does not close the generation" must fail (vacuity guard)."""
+    import subprocess
+    work = os.path.join(ctx.work, "apalache")
+    os.makedirs(work, exist_ok=True)
+    src = open(os.path.join(d, "GenInd.tla")).read()
+    open(os.path.join(work, "GenInd.tla"), "w").write(src)
+    bug = src.replace("MODULE GenInd", "MODULE GenIndBug").replace("  /\\ live > 0\n  /\\ closed' = TRUE", "  /\\ live > 0\n  /\\ closed' = closed")
+    if bug.count("closed' = closed") != 1:
+        raise Inconclusive("could not derive the defective variant of GenInd.tla")
+    open(os.path.join(work, "GenIndBug.tla"), "w").write(bug)
+
+    def apa(mod, init, inv, length):
+        try:
+            p = subprocess.run(["timeout", "300", "apalache-mc", "check", "--init=" + init, "--inv=" + inv, "--length=%d" % length,
+                                "--out-dir=" + os.path.join(work, "out"), mod + ".tla"], cwd=work, capture_output=True, text=True)
+        except FileNotFoundError:
+            return None
+        m = re.search(r"EXITCODE: (\w+)(?: \((\d+)\))?", p.stdout)
+        return (m.group(1), m.group(2)) if m else ("?", str(p.returncode))
+
+    steps = [("GenInd", "Init", "IndInv", 0), ("GenInd", "IndInit", "IndInv", 1), ("GenInd", "IndInit", "Props", 0)]
+    res = [apa(*s) for s in steps]
+    if any(r is None for r in res):
+        ctx.notes.append("apalache-mc is not installed: the inductive check of GenInd.tla was skipped")
+        return {"skipped": "apalache-mc not found"}
+    if any(r[0] != "OK" for r in res):
+        raise Inconclusive("Apalache did not accept GenInd.tla: %s" % list(zip(steps, res)))
+    g = apa("GenIndBug", "IndInit", "IndInv", 1)
+    if g is None or g[0] != "ERROR" or g[1] != "12":
+        raise Inconclusive("vacuity guard failed: Apalache accepted the defective GenIndBug.tla (%s)" % (g,))
+    ctx.log("Apalache: GenInd!IndInv is inductive and implies CloseWaits, JoinedOnce, FirstExitEnds (unbounded); defective variant rejected")
+    return {"tool": "apalache-mc", "module": "GenInd.tla", "queries": ["Init => IndInv", "IndInv /\\ Next => IndInv'", "IndInv => Props"],
+            "properties": ["CloseWaits", "JoinedOnce", "FirstExitEnds"], "vacuity_guard": "GenIndBug: counterexample to induction"}
 
 
 def model_check_commit(ctx):
